@@ -215,7 +215,8 @@ def parseTimedelta (s : String) (dflt : String) : ParseTd :=
   match cs with
   | [] => .indexError
   | c0 :: _ =>
-    let cs := if isDigit c0 then cs else '1' :: cs
+    -- `if not (s[0].isdigit() or s[0] == "."): s = "1" + s`  (the `'.'` test is the `fix:` commit 1d96b59)
+    let cs := if isDigit c0 || c0 = '.' then cs else '1' :: cs
     let (pre, suf) := splitUnit cs
     let suf := if suf.isEmpty then dflt.toList else suf
     match parseLit pre with
